@@ -4,13 +4,16 @@ package main
 // listener on 127.0.0.1:0 (listeners/tcp.go accept loop), real client sockets, Server.Close on its
 // own goroutine.  Handlers and the closer are parked at verifPoints; the accept loop is not
 // controlled (it runs eagerly).  One case per schedule:
-//   ((ver...) (action...) (final...))
+//   (((ver wfail wexc)...) (action...) (final...))
+//     wfail: writing the shutdown DISCONNECT to this connection fails — the MQTT 5 client announced a
+//            Maximum Packet Size below the packet's 27 bytes, or a write fault is injected (wexc)
 //     action = ((tid...) kobs (hobs...))   model schedule entries of one harness action + what was seen
 //     final  = (dial connack disc closed left) per connection, seen by the client at the end
 // tids of the model: 0 closer, 1 accept loop, 2+i client i (dial, send CONNECT), 2+n+i handler i,
 // 2+2n+i client i going away.
 
 import (
+	"errors"
 	"fmt"
 	"io"
 	"log/slog"
@@ -37,6 +40,7 @@ const shTimeout = 5 * time.Second
 
 type shConn struct {
 	ver    byte
+	spec   shSpec
 	sock   net.Conn
 	dial   int // 0 not dialed, 1 connected, 2 refused
 	key    string
@@ -44,6 +48,32 @@ type shConn struct {
 	rest   []byte // part of the CONNECT packet not yet sent
 	sent   bool   // the CONNECT packet has been sent completely
 	connack, disc, closed bool
+}
+
+// shSpec: protocol version, Maximum Packet Size announced in CONNECT (MQTT 5, 0 = none), and
+// whether writes of a DISCONNECT packet to the connection fail (injected I/O error).
+type shSpec struct {
+	ver   byte
+	mps   uint32
+	fault bool
+}
+
+func (sp shSpec) wfail() bool { return sp.fault || (sp.ver == 5 && sp.mps > 0 && sp.mps < 27) }
+
+// faultConn is the broker's side of a connection; it fails writes of DISCONNECT packets when told to.
+type faultConn struct {
+	net.Conn
+	faults *sync.Map
+	key    string
+}
+
+func (f *faultConn) Write(p []byte) (int, error) {
+	if len(p) > 0 && p[0]>>4 == 14 {
+		if _, ok := f.faults.Load(f.key); ok {
+			return 0, errors.New("injected write error")
+		}
+	}
+	return f.Conn.Write(p)
 }
 
 type shAction struct {
@@ -61,14 +91,16 @@ type shRun struct {
 	acts    []shAction
 	started bool // Close has been called
 	hung    string
+	faults  sync.Map
 }
 
 var shCurrent atomic.Pointer[fsched.Ctl]
 
-func newShRun(vers []byte) *shRun {
+func newShRun(vers []shSpec) *shRun {
 	r := &shRun{n: len(vers)}
 	r.ctl = fsched.New("attach.start", "attach.afterInherit", "attach.afterClientsAdd", "attach.readReturned",
 		"close.beforeSnapshot", "close.afterSnapshot", "close.afterCloseAll")
+	r.ctl.WaitSites = []string{"listeners.(*Listeners).CloseAll"} // ClientsWg.Wait
 	shCurrent.Store(r.ctl)
 	r.srv = mqtt.New(&mqtt.Options{Logger: slog.New(slog.NewTextHandler(io.Discard, nil))})
 	if err := r.srv.AddHook(new(auth.AllowHook), nil); err != nil {
@@ -85,10 +117,10 @@ func newShRun(vers []byte) *shRun {
 		key := "h@" + c.RemoteAddr().String()
 		ctl.Register(key)
 		defer ctl.Finish(key)
-		return srv.EstablishConnection(id, c)
+		return srv.EstablishConnection(id, &faultConn{Conn: c, faults: &r.faults, key: key})
 	})
 	for _, v := range vers {
-		r.conns = append(r.conns, &shConn{ver: v})
+		r.conns = append(r.conns, &shConn{ver: v.ver, spec: v})
 	}
 	time.Sleep(200 * time.Microsecond) // let the accept loop reach Accept
 	r.record([]int{1})
@@ -169,7 +201,14 @@ func (r *shRun) dial(i int, mode int) {
 	c.dial = 1
 	c.sock = sock
 	c.key = "h@" + sock.LocalAddr().String()
-	data, err := broker.Encode(broker.ConnectPk(fmt.Sprintf("c%d", i), c.ver, true))
+	if c.spec.fault {
+		r.faults.Store(c.key, true)
+	}
+	cpk := broker.ConnectPk(fmt.Sprintf("c%d", i), c.ver, true)
+	if c.ver == 5 && c.spec.mps > 0 {
+		cpk.Properties.MaximumPacketSize = c.spec.mps
+	}
+	data, err := broker.Encode(cpk)
 	if err != nil {
 		panic(err)
 	}
@@ -317,12 +356,21 @@ func (r *shRun) finalObs() {
 			defer wg.Done()
 			var out []byte
 			buf := make([]byte, 4096)
+			// Everything the broker wrote is in the socket already (all broker threads are settled).
+			// A read whose deadline has passed fails without looking at the socket, so under load
+			// (this goroutine scheduled late) a timeout is only believed after a fresh attempt.
 			_ = c.sock.SetReadDeadline(time.Now().Add(60 * time.Millisecond))
+			retries := 0
 			for {
 				n, err := c.sock.Read(buf)
 				out = append(out, buf[:n]...)
 				if err != nil {
 					if ne, ok := err.(net.Error); ok && ne.Timeout() {
+						if retries < 2 {
+							retries++
+							_ = c.sock.SetReadDeadline(time.Now().Add(20 * time.Millisecond))
+							continue
+						}
 						c.closed = false
 					} else {
 						c.closed = true
@@ -386,7 +434,7 @@ func (r *shRun) cleanup() {
 func (r *shRun) emit(out *sx.Out) {
 	vs := sx.L{}
 	for _, c := range r.conns {
-		vs = append(vs, sx.N(c.ver))
+		vs = append(vs, sx.L{sx.N(c.ver), sx.Bool(c.spec.wfail()), sx.Bool(c.spec.fault)})
 	}
 	as := sx.L{}
 	for _, a := range r.acts {
@@ -410,7 +458,7 @@ func (r *shRun) emit(out *sx.Out) {
 // 3 leave, 4 dial sending nothing, 5 dial sending half of the CONNECT, 6 send (the rest of) the CONNECT.
 type shOp struct{ kind, i int }
 
-func runShutdownCase(out *sx.Out, vers []byte, ops []shOp) {
+func runShutdownCase(out *sx.Out, vers []shSpec, ops []shOp) {
 	r := newShRun(vers)
 	for _, op := range ops {
 		switch op.kind {
@@ -455,12 +503,36 @@ func engShutdown(seed int64, tier string, args []string, out *sx.Out) {
 		}
 	}
 	rng := rand.New(rand.NewSource(seed))
-	versOf := func(n int) []byte {
-		v := make([]byte, n)
-		for i := range v {
-			v[i] = []byte{5, 5, 4, 3}[rng.Intn(4)]
+	// flavours of a connection: Maximum Packet Size around the 27 bytes of the shutdown DISCONNECT
+	// (MQTT 5), an injected write fault, or nothing special
+	flavour := func(ver byte, k int) shSpec {
+		sp := shSpec{ver: ver}
+		switch k {
+		case 0:
+			sp.mps = 25
+		case 1:
+			sp.mps = 26
+		case 2:
+			sp.mps = 27
+		case 3:
+			sp.mps = 1000
+		case 4:
+			sp.fault = true
 		}
-		v[0] = 5
+		if ver != 5 {
+			sp.mps = 0
+		}
+		return sp
+	}
+	versOf := func(n int) []shSpec {
+		v := make([]shSpec, n)
+		for i := range v {
+			ver := []byte{5, 5, 4, 3}[rng.Intn(4)]
+			if i == 0 {
+				ver = 5
+			}
+			v[i] = flavour(ver, rng.Intn(9))
+		}
 		return v
 	}
 	// position of a connection at the moment Close starts:
@@ -549,6 +621,7 @@ func engShutdown(seed int64, tier string, args []string, out *sx.Out) {
 			}
 		}
 	}
+	fam2 := 0
 	// family 2: the closer runs to completion (or into Wait) while the handlers stay where they are;
 	// afterwards the silent clients send their CONNECT (first connection) or go away (second)
 	for a := 0; a < npos; a++ {
@@ -569,7 +642,8 @@ func engShutdown(seed int64, tier string, args []string, out *sx.Out) {
 			if (a+b)%2 == 1 {
 				ops = append(ops, shOp{6, 0}, shOp{3, 1})
 			}
-			runShutdownCase(out, []byte{5, 4}, ops)
+			runShutdownCase(out, []shSpec{flavour(5, fam2%6), flavour(4, 4+fam2%2)}, ops)
+			fam2++
 		}
 	}
 	// family 3: three connections, random positions and interleavings
@@ -581,6 +655,6 @@ func engShutdown(seed int64, tier string, args []string, out *sx.Out) {
 		family(3, []int{rng.Intn(npos), rng.Intn(npos), rng.Intn(npos)}, rng.Intn(2) == 0)
 	}
 	// dialing after Close has returned is refused
-	runShutdownCase(out, []byte{5, 5}, []shOp{{0, 0}, {1, 0}, {1, 0}, {1, 0}, {2, 0}, {2, 0}, {2, 0}, {1, 0}, {2, 0}, {0, 1}})
+	runShutdownCase(out, []shSpec{{ver: 5}, {ver: 5}}, []shOp{{0, 0}, {1, 0}, {1, 0}, {1, 0}, {2, 0}, {2, 0}, {2, 0}, {1, 0}, {2, 0}, {0, 1}})
 	mqtt.VerifPointHook = nil
 }
